@@ -41,11 +41,17 @@
      exactly when it is true (k-of-n thresholds included; [thresh_fit] = no i64 overflow in the
      satisfier's sort key, dischargeable by CompleteThresh.fit_of_bound).
 
+   Resource limits: the Script semantics of these theorems does not bound stack depth or opcode count;
+   that a liftable script's satisfactions stay within the context's limits is what lift_check's first
+   test is for.  Its verdict is computed by the model (LiftLimits.within_resource_limits, from the C09
+   ExtData model) and tied, and the check executes the implementation's own witnesses with the
+   instrumented semantics (ExecTr.trace_of_script) against the limits -- see notes/C07.md.
+
    Nothing is refuted: no direction fails on the faithful model.  Remaining limits (notes/C07.md):
    the descriptor statement covers the script part of each output type (inner script / tap leaf
    under its own environment / key signature); the output-type wrapping is C15 / C16. *)
 From Verif Require Import Exec Ser Ast Types TypeCheck SatSpec Sat LiftModel TheoremA SatProofs FrameDissat CompleteProofs CompleteThresh CompleteNonMall
-  DenotSpec LiftProofs LiftNormProofs LiftMainProofs LiftFullProofs.
+  DenotSpec LiftLimits LiftProofs LiftNormProofs LiftMainProofs LiftFullProofs.
 From Coq Require Import Permutation.
 
 (* BIP67 sorting only reorders keys *)
@@ -118,6 +124,18 @@ Theorem C07_spending_condition :
     (leval (assets_of e ke W) p = true <-> exists w, incl w W /\ accepts e (enc ke m) w = true).
 Proof. exact lift_spending_condition. Qed.
 Print Assumptions C07_spending_condition.
+
+(* the same for the lift whose within_resource_limits verdict is COMPUTED by the model from the
+   fragment and its context (Ms/LiftLimits.v over the C09 ExtData model) -- the function the
+   correspondence run compares with the implementation, verdict included *)
+Theorem C07_spending_condition_ctx :
+  forall (e : env) (ke : keyenv), sort_permutes ke -> (forall kbs, e_sigok e kbs [] = false) ->
+  forall (c : ctx) (unc : key -> bool) (W : wit) (m : ms) (t : ty) (p : lpolicy),
+    keys_ok e ke -> (forall x, In x W -> (blen x < 2147483648)%N) -> pub_in ke m W -> kh_binds e ke W ->
+    type_of m = ROk t -> c_base (t_corr t) = BB -> wf e ke m -> lift_ctx c unc m = LOk p ->
+    (leval (assets_of e ke W) p = true <-> exists w, incl w W /\ accepts e (enc ke m) w = true).
+Proof. exact lift_ctx_spending_condition. Qed.
+Print Assumptions C07_spending_condition_ctx.
 
 Theorem C07_desc_spending_condition :
   forall (ke : keyenv), sort_permutes ke ->
